@@ -359,6 +359,7 @@ func (s *State) callResolved(site ssa.Instruction, cc *ssa.CallCommon, fnv Val, 
 	if callee.Signature.Recv() != nil && len(args) > 0 && kindOf(args[0].T) == kPtr && eng.inRepo(callee) {
 		s.nilCheck(site, args[0], "nil receiver for "+callee.Name())
 	}
+	s.callSiteAsserts(site, key, callee, args)
 	if con, ok := eng.contracts.Funcs[key]; ok && !con.Inline {
 		s.applyContract(site, key, con, callee, args, sig, k)
 		return
@@ -458,9 +459,12 @@ func (s *State) applyContract(site ssa.Instruction, key string, con *Contract, c
 	}
 	old := s.clone()
 	// frame
-	if con.HasAssign || callee != nil {
+	{
 		locs, all := s.evalAssigns(con, vars, pkg)
 		if all {
+			if c.frameOn && !c.frameAll {
+				s.oblige("frame", site, c.ordinal(site, "frame")*100+99, "false", "callee "+key+" may write everything, this function's assigns clause does not allow that", false)
+			}
 			s.havocAll("")
 		} else {
 			for _, l := range locs {
@@ -468,8 +472,6 @@ func (s *State) applyContract(site ssa.Instruction, key string, con *Contract, c
 				s.havocLoc(l)
 			}
 		}
-	} else {
-		s.havocAll("")
 	}
 	// allocation may have happened in the callee
 	na := c.freshConst("alloc", sInt)
@@ -536,6 +538,17 @@ func (s *State) evalAssigns(con *Contract, vars map[string]Val, pkg *ssa.Package
 		}
 		x := &EvalCtx{s: s, vars: vars, pkg: pkg}
 		switch n := e.(type) {
+		case *ECall:
+			if n.Fn == "alloftype" && len(n.Args) == 1 {
+				if ts, ok := n.Args[0].(*EStr); ok {
+					t, _ := x.specTypeAny(ts.V)
+					if t != nil {
+						locs = append(locs, frameLoc{kind: "type", prefix: "fld|" + typeKey(t) + "|", desc: e.String(), T: t})
+						continue
+					}
+				}
+			}
+			s.c.specErr(con.Where, "assigns %s: not understood", e)
 		case *EStar:
 			v := x.eval(n.X)
 			switch kindOf(v.T) {
@@ -602,6 +615,8 @@ func (s *State) evalAssigns(con *Contract, vars map[string]Val, pkg *ssa.Package
 func (s *State) havocLoc(l frameLoc) {
 	c := s.c
 	switch l.kind {
+	case "type":
+		s.havocPrefix(l.prefix)
 	case "fld":
 		if k := kindOf(l.T); k == kStruct || k == kArray {
 			return
@@ -663,6 +678,8 @@ func (c *FnCtx) frameGoal(s *State, kind string, keyPrefix string, ref string) s
 	alts := []string{app(">=", ref, c.entry.alloc)}
 	for _, l := range c.frame {
 		switch {
+		case l.kind == "type" && kind == "fld" && strings.HasPrefix(keyPrefix, l.prefix):
+			return "true"
 		case kind == "fld" && l.kind == "fld" && l.prefix == keyPrefix:
 			alts = append(alts, eq(ref, l.ref))
 		case kind == "elems" && l.kind == "elems" && l.prefix == keyPrefix:
@@ -717,10 +734,10 @@ func (s *State) frameCheckLoc(site ssa.Instruction, l frameLoc) {
 	}
 	var goal string
 	switch l.kind {
-	case "glob":
+	case "glob", "type":
 		goal = "false"
 		for _, f := range c.frame {
-			if f.kind == "glob" && f.prefix == l.prefix {
+			if f.kind == l.kind && f.prefix == l.prefix {
 				goal = "true"
 			}
 		}
@@ -823,7 +840,16 @@ func (c *FnCtx) loopMods(h *ssa.BasicBlock) ([]string, bool) {
 				if _, ok := c.eng.lib[key]; ok {
 					return
 				}
-				if con, ok := c.eng.contracts.Funcs[key]; ok && con.HasAssign && len(con.Assigns) == 0 {
+				if con, ok := c.eng.contracts.Funcs[key]; ok {
+					for _, a := range con.Assigns {
+						ks, al := c.assignKeys(a, nil)
+						if al {
+							unk(c.eng.ifacePkgs(cc.Value.Type()), cc)
+						}
+						for _, k := range ks {
+							set[k] = true
+						}
+					}
 					return
 				}
 				unk(c.eng.ifacePkgs(cc.Value.Type()), cc)
@@ -832,7 +858,7 @@ func (c *FnCtx) loopMods(h *ssa.BasicBlock) ([]string, bool) {
 			callee := cc.StaticCallee()
 			if callee == nil {
 				if key := c.eng.funcValueKey(cc.Value); key != "" {
-					if con, ok := c.eng.contracts.Funcs[key]; ok && con.HasAssign && len(con.Assigns) == 0 {
+					if con, ok := c.eng.contracts.Funcs[key]; ok && len(con.Assigns) == 0 {
 						return
 					}
 				}
@@ -903,15 +929,27 @@ func (c *FnCtx) loopMods(h *ssa.BasicBlock) ([]string, bool) {
 
 // assignKeys: heap key prefixes a callee's assigns entry may touch (syntactic, type-based).
 func (c *FnCtx) assignKeys(e Expr, callee *ssa.Function) ([]string, bool) {
+	if call, ok := e.(*ECall); ok && call.Fn == "alloftype" && len(call.Args) == 1 {
+		if ts, ok := call.Args[0].(*EStr); ok {
+			x := &EvalCtx{s: c.entry, pkg: pkgOf(callee)}
+			if t, _ := x.specTypeAny(ts.V); t != nil {
+				return []string{"fld|" + typeKey(t) + "|"}, false
+			}
+		}
+		return nil, true
+	}
 	if id, ok := e.(*EIdent); ok {
 		if id.Name == "everything" {
 			return nil, true
 		}
-		if callee.Pkg != nil {
+		if callee != nil && callee.Pkg != nil {
 			if g, ok := callee.Pkg.Members[id.Name].(*ssa.Global); ok {
 				return []string{"glob|" + g.Pkg.Pkg.Name() + "." + g.Name()}, false
 			}
 		}
+		return nil, true
+	}
+	if callee == nil {
 		return nil, true
 	}
 	t := c.eng.specStaticType(e, callee)
@@ -1027,4 +1065,26 @@ func (c *FnCtx) sortOfTerm(name string) string {
 		return s
 	}
 	return ""
+}
+
+// callSiteAsserts discharges the `callsite` clauses of the function under verification for this call.
+func (s *State) callSiteAsserts(site ssa.Instruction, key string, callee *ssa.Function, args []Val) {
+	c := s.c
+	if c.con == nil || len(s.fnStack) != 1 {
+		return
+	}
+	for i, ca := range c.con.CallSites {
+		if ca.Callee != key {
+			continue
+		}
+		x := s.invCtx()
+		for j, p := range callee.Params {
+			if j < len(args) {
+				x.vars[p.Name()] = args[j]
+			}
+		}
+		v := x.eval(ca.Clause.Expr)
+		c.specErrors(x, ca.Clause.Where)
+		s.oblige(fmt.Sprintf("callsite:%s", key), site, c.ordinal(site, "callsite")*10+i, v.S, "at every call of "+key+": "+ca.Clause.Src, true)
+	}
 }
